@@ -419,7 +419,8 @@ Inductive prim :=
 | PExists
 | PLPush (v : bytes) | PRPush (v : bytes) | PLPop | PRPop | PLRange          (* LRANGE k 0 -1 *)
 | PSAdd (v : bytes) | PSRem (v : bytes) | PSMembers
-| PHSet (f v : bytes) | PHDel (f : bytes) | PHGetAll.
+| PHSet (f v : bytes) | PHDel (f : bytes) | PHGetAll
+| PFlush.                                        (* FLUSHDB / FLUSHALL, seen from one key *)
 Notation PIncr := (PIncrBy 1%Z).
 
 Inductive prep :=
@@ -527,6 +528,7 @@ Definition prim_step (st : kst) (p : prim) : kst * prep :=
       | _ => (st, RWrongType)
       end
   | PDel => (KNone, RInt (match st with KNone => 0 | _ => 1 end))
+  | PFlush => (KNone, ROk)
   | PSetNx v => match st with KNone => (KStr v, RInt 1) | _ => (st, RInt 0) end
   | PSetOpt v nx xx get =>
       let present := match st with KNone => false | _ => true end in
